@@ -1,1 +1,783 @@
-/-! Property theorems for C04 — placeholder until the property's model is built. -/
+import FcpptModel.Spec.C04
+import FcpptProofs.C04.Var
+set_option linter.unusedSimpArgs false
+set_option linter.unusedVariables false
+/-!
+# C04 — property theorems
+
+For **all** types, all values, all container lengths and all continuations — a continuation is an
+arbitrary computation in `K σ` (any effect on any state `σ`, may throw) — the model of every
+`optional` / `either` / `variant` combinator
+
+1. equals a `match` on the held alternative in which every continuation call is visible
+   (`*_spec`): the branch of the held alternative is selected, that continuation is invoked exactly
+   once, nothing is invoked for an absent value, and no `get_unsafe` remains (`*_noFault`);
+2. obeys the functor / monad / applicative laws, as equations between effectful computations;
+3. returns what its documentation states (`filter`, `alternative`, `combine`, `cat`, `sequence`,
+   `first_success`, `loop`, `try_call`, comparison, `to_optional`, `compare`, `<` as the
+   lexicographic order on `(index, value)`).
+
+Only theorems live here; lemmas are in `FcpptProofs/C04/`.
+-/
+namespace Fcppt.C04
+open Spec
+variable {σ α β γ δ φ ψ : Type}
+
+/-! ## 1. optional: branch selection, exactly-once invocation -/
+
+theorem opt_bind_spec (o : Option α) (f : α → K σ (Option β)) :
+    Opt.bind o f = match o with
+      | some x => f x
+      | none => pure none := Opt.bind_eq o f
+
+theorem opt_map_spec (o : Option α) (f : α → K σ β) :
+    Opt.map o f = match o with
+      | some x => some <$> f x
+      | none => pure none := Opt.map_eq o f
+
+theorem opt_join_spec (o : Option (Option α)) : (Opt.join o : K σ (Option α)) = pure o.join := Opt.join_eq o
+
+theorem opt_makeIf_spec (b : Bool) (f : Unit → K σ α) :
+    Opt.makeIf b f = if b then some <$> f () else pure none := Opt.makeIf_eq b f
+
+theorem opt_apply1_spec (f : α → K σ δ) (o1 : Option α) :
+    Opt.apply1 f o1 = match o1 with
+      | some x => some <$> f x
+      | none => pure none := Opt.apply1_eq f o1
+
+theorem opt_apply2_spec (f : α → β → K σ δ) (o1 : Option α) (o2 : Option β) :
+    Opt.apply2 f o1 o2 = match o1, o2 with
+      | some x, some y => some <$> f x y
+      | _, _ => pure none := Opt.apply2_eq f o1 o2
+
+theorem opt_apply3_spec (f : α → β → γ → K σ δ) (o1 : Option α) (o2 : Option β) (o3 : Option γ) :
+    Opt.apply3 f o1 o2 o3 = match o1, o2, o3 with
+      | some x, some y, some z => some <$> f x y z
+      | _, _, _ => pure none := Opt.apply3_eq f o1 o2 o3
+
+/-- `apply` at any arity: the function is called (once) iff every optional is set -/
+theorem opt_applyN_spec (f : List α → K σ δ) (os : List (Option α)) :
+    Opt.applyN f os = match allSome os with
+      | some xs => some <$> f xs
+      | none => pure none := Opt.applyN_eq f os
+
+theorem opt_filter_spec (o : Option α) (p : α → K σ Bool) :
+    Opt.filter o p = match o with
+      | some x => (fun b => if b then some x else none) <$> p x
+      | none => pure none := Opt.filter_eq o p
+
+theorem opt_alternative_spec (o1 : Option α) (o2 : Unit → K σ (Option α)) :
+    Opt.alternative o1 o2 = match o1 with
+      | some x => pure (some x)
+      | none => o2 () := Opt.alternative_eq o1 o2
+
+theorem opt_combine_spec (o1 o2 : Option α) (f : α → α → K σ α) :
+    Opt.combine o1 o2 f = match o1, o2 with
+      | some x, some y => some <$> f x y
+      | some x, none => pure (some x)
+      | none, o => pure o := Opt.combine_eq o1 o2 f
+
+/-- `maybe` selects the branch of the held alternative and runs exactly that continuation, once -/
+theorem opt_maybe_selects_branch (o : Option α) (d : Unit → K σ β) (t : α → K σ β) :
+    Opt.maybe o d t = match o with
+      | some x => t x
+      | none => d () := Opt.maybe_eq o d t
+
+theorem opt_maybeVoid_spec (o : Option α) (t : α → K σ Unit) :
+    Opt.maybeVoid o t = match o with
+      | some x => t x
+      | none => pure () := Opt.maybeVoid_eq o t
+
+theorem opt_from_selects_branch (o : Option α) (d : Unit → K σ α) :
+    Opt.from o d = match o with
+      | some x => pure x
+      | none => d () := Opt.from_eq o d
+
+theorem opt_maybeMulti1_spec (d : Unit → K σ δ) (t : α → K σ δ) (o1 : Option α) :
+    Opt.maybeMulti1 d t o1 = match o1 with
+      | some x => t x
+      | none => d () := Opt.maybeMulti1_eq d t o1
+
+theorem opt_maybeMulti2_spec (d : Unit → K σ δ) (t : α → β → K σ δ) (o1 : Option α) (o2 : Option β) :
+    Opt.maybeMulti2 d t o1 o2 = match o1, o2 with
+      | some x, some y => t x y
+      | _, _ => d () := Opt.maybeMulti2_eq d t o1 o2
+
+theorem opt_maybeMulti3_spec (d : Unit → K σ δ) (t : α → β → γ → K σ δ)
+    (o1 : Option α) (o2 : Option β) (o3 : Option γ) :
+    Opt.maybeMulti3 d t o1 o2 o3 = match o1, o2, o3 with
+      | some x, some y, some z => t x y z
+      | _, _, _ => d () := Opt.maybeMulti3_eq d t o1 o2 o3
+
+theorem opt_maybeMultiN_spec (d : Unit → K σ δ) (t : List α → K σ δ) (os : List (Option α)) :
+    Opt.maybeMultiN d t os = match allSome os with
+      | some xs => t xs
+      | none => d () := Opt.maybeMultiN_eq d t os
+
+/-- `cat` keeps exactly the set elements, in order -/
+theorem opt_cat_spec (l : List (Option α)) : (Opt.cat l : K σ (List α)) = pure (l.filterMap id) := Opt.cat_eq l
+
+/-- `sequence`: nothing if some element is nothing, otherwise all the values in order -/
+theorem opt_sequence_spec (l : List (Option α)) :
+    (Opt.sequence l : K σ (Option (List α))) = pure (allSome l) := Opt.sequence_eq l
+
+/-- … where "all the values" means: the source is exactly the values, each wrapped -/
+theorem opt_sequence_some_iff (l : List (Option α)) (xs : List α) : allSome l = some xs ↔ l = xs.map some :=
+  allSome_eq_some_iff l xs
+
+theorem opt_sequence_none_iff (l : List (Option α)) : allSome l = none ↔ none ∈ l := allSome_eq_none_iff l
+
+theorem opt_eq_spec (eqv : α → α → Bool) (a b : Option α) :
+    (Opt.eq eqv a b : K σ Bool) = pure (match a, b with
+      | some x, some y => eqv x y
+      | none, none => true
+      | _, _ => false) := Opt.eq_eq eqv a b
+
+/-- with a lawful `==` on the elements, `operator==` decides equality of the optionals -/
+theorem opt_eq_iff [DecidableEq α] (a b : Option α) :
+    (Opt.eq (fun x y => decide (x = y)) a b : K σ Bool) = pure (decide (a = b)) := by
+  rw [Opt.eq_eq]
+  cases a <;> cases b <;> simp
+
+theorem opt_ne_spec (eqv : α → α → Bool) (a b : Option α) :
+    (Opt.ne eqv a b : K σ Bool) = (fun r => !r) <$> (Opt.eq eqv a b : K σ Bool) := Opt.ne_eq eqv a b
+
+/-- `operator<` is the lexicographic order with "nothing" below every value -/
+theorem opt_lt_spec (ltv : α → α → Bool) (a b : Option α) :
+    (Opt.lt ltv a b : K σ Bool) = pure (optLt ltv a b) := Opt.lt_eq ltv a b
+
+/-- … which is a strict order whenever the element order is -/
+theorem optLt_irrefl (ltv : α → α → Bool) (hi : ∀ x, ltv x x = false) (a : Option α) : optLt ltv a a = false := by
+  cases a <;> simp [optLt, hi]
+
+theorem optLt_trans (ltv : α → α → Bool) (ht : ∀ x y z, ltv x y = true → ltv y z = true → ltv x z = true)
+    (a b c : Option α) (h1 : optLt ltv a b = true) (h2 : optLt ltv b c = true) : optLt ltv a c = true := by
+  cases a <;> cases b <;> cases c <;> simp_all [optLt]
+  exact ht _ _ _ h1 h2
+
+theorem optLt_trichotomy (ltv : α → α → Bool) (htri : ∀ x y, ltv x y = true ∨ x = y ∨ ltv y x = true)
+    (a b : Option α) : optLt ltv a b = true ∨ a = b ∨ optLt ltv b a = true := by
+  cases a <;> cases b <;> simp [optLt]
+  exact htri _ _
+
+/-! ## 2. optional: functor, monad and applicative laws (with effects) -/
+
+theorem opt_map_id (o : Option α) : Opt.map o (fun x => (pure x : K σ α)) = pure o := by
+  cases o <;> simp [Opt.map_eq]
+
+/-- map fusion: mapping `f` and then `g` is mapping their (Kleisli) composition; `f` runs before `g`, each once -/
+theorem opt_map_comp (o : Option α) (f : α → K σ β) (g : β → K σ γ) :
+    (Opt.map o f >>= fun r => Opt.map r g) = Opt.map o (fun x => f x >>= g) := by
+  cases o <;> simp [Opt.map_eq]
+
+theorem opt_map_comp_pure (o : Option α) (f : α → β) (g : β → γ) :
+    (Opt.map o (fun x => (pure (f x) : K σ β)) >>= fun r => Opt.map r (fun y => (pure (g y) : K σ γ)))
+      = Opt.map o (fun x => pure (g (f x))) := by
+  cases o <;> simp [Opt.map_eq]
+
+/-- the model of `map` is Lean's `Option.map` when the function has no effect -/
+theorem opt_map_pure (o : Option α) (f : α → β) : Opt.map o (fun x => (pure (f x) : K σ β)) = pure (o.map f) := by
+  cases o <;> simp [Opt.map_eq]
+
+theorem opt_bind_pure (o : Option α) (f : α → Option β) :
+    Opt.bind o (fun x => (pure (f x) : K σ (Option β))) = pure (o.bind f) := by
+  cases o <;> simp [Opt.bind_eq]
+
+theorem opt_bind_pure_left (x : α) (f : α → K σ (Option β)) : Opt.bind (Opt.make x) f = f x := by
+  simp [Opt.bind_eq, Opt.make]
+
+theorem opt_bind_pure_right (o : Option α) : Opt.bind o (fun x => (pure (Opt.make x) : K σ (Option α))) = pure o := by
+  cases o <;> simp [Opt.bind_eq, Opt.make]
+
+theorem opt_bind_assoc (o : Option α) (f : α → K σ (Option β)) (g : β → K σ (Option γ)) :
+    (Opt.bind o f >>= fun r => Opt.bind r g) = Opt.bind o (fun x => f x >>= fun r => Opt.bind r g) := by
+  cases o <;> simp [Opt.bind_eq]
+
+theorem opt_join_eq_bind_id (o : Option (Option α)) :
+    (Opt.join o : K σ (Option α)) = Opt.bind o (fun x => pure x) := by
+  cases o <;> simp [Opt.join_eq, Opt.bind_eq]
+
+theorem opt_bind_eq_map_join (o : Option α) (f : α → K σ (Option β)) :
+    Opt.bind o f = (Opt.map o f >>= fun r => Opt.join r) := by
+  cases o <;> simp [Opt.bind_eq, Opt.map_eq, Opt.join_eq]
+
+theorem opt_map_eq_bind (o : Option α) (f : α → K σ β) :
+    Opt.map o f = Opt.bind o (fun x => f x >>= fun r => pure (Opt.make r)) := rfl
+
+theorem monad_bind_opt_eq (o : Option α) (f : α → K σ (Option β)) : monadBindOpt o f = Opt.bind o f := rfl
+
+/-- `apply` with an effect-free function is Lean's applicative `<*>` on `Option`
+(so identity, homomorphism, interchange and composition hold) -/
+theorem opt_apply2_pure (f : α → β → δ) (o1 : Option α) (o2 : Option β) :
+    Opt.apply2 (fun a b => (pure (f a b) : K σ δ)) o1 o2 = pure (f <$> o1 <*> o2) := by
+  cases o1 <;> cases o2 <;> simp [Opt.apply2_eq] <;> rfl
+
+theorem opt_apply3_pure (f : α → β → γ → δ) (o1 : Option α) (o2 : Option β) (o3 : Option γ) :
+    Opt.apply3 (fun a b c => (pure (f a b c) : K σ δ)) o1 o2 o3 = pure (f <$> o1 <*> o2 <*> o3) := by
+  cases o1 <;> cases o2 <;> cases o3 <;> simp [Opt.apply3_eq] <;> rfl
+
+theorem opt_apply1_eq_map (f : α → K σ δ) (o : Option α) : Opt.apply1 f o = Opt.map o f := by
+  rw [Opt.apply1_eq, Opt.map_eq]
+
+theorem opt_apply_homomorphism (f : α → β → K σ δ) (x : α) (y : β) :
+    Opt.apply2 f (Opt.make x) (Opt.make y) = some <$> f x y := by
+  simp [Opt.apply2_eq, Opt.make]
+
+/-- applicative identity -/
+theorem opt_apply_identity (o : Option α) : Opt.apply1 (fun x => (pure x : K σ α)) o = pure o := by
+  cases o <;> simp [Opt.apply1_eq]
+
+/-- applicative composition (liftA2 form) for effect-free functions: nesting two binary `apply`s is one ternary `apply` -/
+theorem opt_apply_assoc_pure (f : α → β → γ) (g : γ → δ → ψ) (a : Option α) (b : Option β) (c : Option δ) :
+    (Opt.apply2 (fun x y => (pure (f x y) : K σ γ)) a b >>= fun r => Opt.apply2 (fun w z => (pure (g w z) : K σ ψ)) r c)
+      = Opt.apply3 (fun x y z => pure (g (f x y) z)) a b c := by
+  cases a <;> cases b <;> cases c <;> simp [Opt.apply2_eq, Opt.apply3_eq]
+
+/-- with effects the same holds as soon as the outer optional is set (otherwise the inner function has already run) -/
+theorem opt_apply_assoc (f : α → β → K σ γ) (g : γ → δ → K σ ψ) (a : Option α) (b : Option β) (z : δ) :
+    (Opt.apply2 f a b >>= fun r => Opt.apply2 g r (some z))
+      = Opt.apply3 (fun x y z => f x y >>= fun w => g w z) a b (some z) := by
+  cases a <;> cases b <;> simp [Opt.apply2_eq, Opt.apply3_eq]
+
+theorem either_apply_identity (e : Either φ α) : Either.apply1 (fun x => (pure x : K σ α)) e = pure e := by
+  cases e <;> simp [Either.apply1_eq]
+
+theorem either_apply_assoc_pure (f : α → β → γ) (g : γ → δ → ψ) (a : Either φ α) (b : Either φ β) (c : Either φ δ) :
+    (Either.apply2 (fun x y => (pure (f x y) : K σ γ)) a b >>= fun r => Either.apply2 (fun w z => (pure (g w z) : K σ ψ)) r c)
+      = Either.apply3 (fun x y z => pure (g (f x y) z)) a b c := by
+  cases a <;> cases b <;> cases c <;> simp [Either.apply2_eq, Either.apply3_eq]
+
+/-- effect-free versions of the documented results -/
+theorem opt_filter_pure (o : Option α) (p : α → Bool) :
+    Opt.filter o (fun x => (pure (p x) : K σ Bool)) = pure (o.filter p) := by
+  cases o <;> simp [Opt.filter_eq, Option.filter]
+
+theorem opt_alternative_pure (o1 o2 : Option α) :
+    Opt.alternative o1 (fun _ => (pure o2 : K σ (Option α))) = pure (o1 <|> o2) := by
+  cases o1 <;> simp [Opt.alternative_eq]
+
+theorem opt_from_pure (o : Option α) (d : α) : Opt.from o (fun _ => (pure d : K σ α)) = pure (o.getD d) := by
+  cases o <;> simp [Opt.from_eq]
+
+/-! ## 3. either -/
+
+/-- `match` selects the branch of the held alternative and runs exactly that continuation, once -/
+theorem either_match_selects_branch (e : Either φ α) (ff : φ → K σ β) (sf : α → K σ β) :
+    Either.match_ e ff sf = match e with
+      | .success s => sf s
+      | .failure f => ff f := Either.match_eq e ff sf
+
+theorem either_map_spec (e : Either φ α) (f : α → K σ β) :
+    Either.map e f = match e with
+      | .success s => .success <$> f s
+      | .failure x => pure (.failure x) := Either.map_eq e f
+
+theorem either_bind_spec (e : Either φ α) (f : α → K σ (Either φ β)) :
+    Either.bind e f = match e with
+      | .success s => f s
+      | .failure x => pure (.failure x) := Either.bind_eq e f
+
+theorem either_join_spec (e : Either φ (Either φ α)) :
+    (Either.join e : K σ (Either φ α)) = pure (match e with
+      | .success inner => inner
+      | .failure x => .failure x) := Either.join_eq e
+
+theorem either_mapFailure_spec (e : Either φ α) (f : φ → K σ ψ) :
+    Either.mapFailure e f = match e with
+      | .failure x => .failure <$> f x
+      | .success s => pure (.success s) := Either.mapFailure_eq e f
+
+theorem either_successOpt_spec (e : Either φ α) :
+    (Either.successOpt e : K σ (Option α)) = pure (match e with
+      | .success s => some s
+      | .failure _ => none) := Either.successOpt_eq e
+
+theorem either_failureOpt_spec (e : Either φ α) :
+    (Either.failureOpt e : K σ (Option φ)) = pure (match e with
+      | .failure x => some x
+      | .success _ => none) := Either.failureOpt_eq e
+
+theorem either_fromOptional_spec (o : Option α) (ff : Unit → K σ φ) :
+    Either.fromOptional o ff = match o with
+      | some x => pure (.success x)
+      | none => .failure <$> ff () := Either.fromOptional_eq o ff
+
+theorem either_apply1_spec (f : α → K σ δ) (e1 : Either φ α) :
+    Either.apply1 f e1 = match e1 with
+      | .success x => .success <$> f x
+      | .failure x => pure (.failure x) := Either.apply1_eq f e1
+
+/-- `apply`: the first failure from left to right, else the function on all successes (called once) -/
+theorem either_apply2_spec (f : α → β → K σ δ) (e1 : Either φ α) (e2 : Either φ β) :
+    Either.apply2 f e1 e2 = match e1, e2 with
+      | .success x, .success y => .success <$> f x y
+      | .failure x, _ => pure (.failure x)
+      | .success _, .failure x => pure (.failure x) := Either.apply2_eq f e1 e2
+
+theorem either_apply3_spec (f : α → β → γ → K σ δ) (e1 : Either φ α) (e2 : Either φ β) (e3 : Either φ γ) :
+    Either.apply3 f e1 e2 e3 = match e1, e2, e3 with
+      | .success x, .success y, .success z => .success <$> f x y z
+      | .failure x, _, _ => pure (.failure x)
+      | .success _, .failure x, _ => pure (.failure x)
+      | .success _, .success _, .failure x => pure (.failure x) := Either.apply3_eq f e1 e2 e3
+
+theorem either_applyN_spec (f : List α → K σ δ) (es : List (Either φ α)) :
+    Either.applyN f es = match allSuccess es with
+      | .success xs => .success <$> f xs
+      | .failure x => pure (.failure x) := Either.applyN_eq f es
+
+/-- `sequence` short-circuits at the first failure in order; otherwise all successes in order -/
+theorem either_sequence_spec (l : List (Either φ α)) :
+    (Either.sequence l : K σ (Either φ (List α))) = pure (allSuccess l) := Either.sequence_eq l
+
+theorem either_sequence_failure_iff (l : List (Either φ α)) (f : φ) :
+    allSuccess l = .failure f ↔ ∃ (pre : List α) (post : List (Either φ α)), l = pre.map .success ++ .failure f :: post :=
+  allSuccess_eq_failure_iff l f
+
+theorem either_sequence_success_iff (l : List (Either φ α)) (xs : List α) :
+    allSuccess l = .success xs ↔ l = xs.map .success := allSuccess_eq_success_iff l xs
+
+/-- `first_success`: the functions are called in order, each at most once, up to and including the first one
+that succeeds; after a failure the remaining functions are tried and this failure is put in front of theirs -/
+theorem either_firstSuccess_nil : (Either.firstSuccess [] : K σ (Either (List φ) α)) = pure (.failure []) := rfl
+
+theorem either_firstSuccess_cons (fn : Unit → K σ (Either φ α)) (rest : List (Unit → K σ (Either φ α))) :
+    Either.firstSuccess (fn :: rest) = (do
+      let r ← fn ()
+      match r with
+      | .success s => pure (.success s)
+      | .failure x => consFailure x <$> Either.firstSuccess rest) := Either.firstSuccess_cons fn rest
+
+theorem either_firstSuccess_pure (l : List (Either φ α)) :
+    (Either.firstSuccess (l.map fun e _ => pure e) : K σ (Either (List φ) α)) = pure (Spec.firstSuccess l) :=
+  Either.firstSuccess_pure l
+
+theorem firstSuccess_success_iff (l : List (Either φ α)) (s : α) :
+    Spec.firstSuccess l = .success s ↔
+      ∃ (pre : List φ) (post : List (Either φ α)), l = pre.map .failure ++ .success s :: post :=
+  firstSuccess_eq_success_iff l s
+
+theorem firstSuccess_failure_iff (l : List (Either φ α)) (fs : List φ) :
+    Spec.firstSuccess l = .failure fs ↔ l = fs.map .failure := firstSuccess_eq_failure_iff l fs
+
+/-- `loop`: one iteration calls `next` once; a failure is the result, a success goes to `body` (once) and the loop goes on -/
+theorem either_loop_succ (next : Unit → K σ (Either φ α)) (body : α → K σ Unit) (n : Nat) :
+    Either.loop (n + 1) next body = (do
+      let e ← next ()
+      match e with
+      | .failure x => pure x
+      | .success s => do
+        body s
+        Either.loop n next body) := Either.loop_succ next body n
+
+theorem either_loop_zero (next : Unit → K σ (Either φ α)) (body : α → K σ Unit) :
+    Either.loop 0 next body = K.fault .fuel := Either.loop_zero next body
+
+/-- soundness: a terminating run of the model is a run of the documented loop -/
+theorem either_loop_sound (next : Unit → K σ (Either φ α)) (body : α → K σ Unit) (fuel : Nat) (s s' : σ) (f : φ)
+    (h : Either.loop fuel next body s = (.ok f, s')) : LoopRuns next body s f s' := by
+  induction fuel generalizing s with
+  | zero => simp [Either.loop_zero] at h
+  | succ n ih =>
+    rw [Either.loop_succ, K.bind_run] at h
+    rcases hn : next () s with ⟨r, s₁⟩
+    rw [hn] at h
+    cases r with
+    | error e => simp at h
+    | ok e =>
+      cases e with
+      | failure x =>
+        simp only [K.pure_run, Prod.mk.injEq, Except.ok.injEq] at h
+        obtain ⟨rfl, rfl⟩ := h
+        exact .stop hn
+      | success a =>
+        simp only [K.bind_run] at h
+        rcases hb : body a s₁ with ⟨rb, s₂⟩
+        rw [hb] at h
+        cases rb with
+        | error e => simp at h
+        | ok u => exact .step hn hb (ih s₂ h)
+
+/-- completeness: every run of the documented loop is computed by the model with enough fuel -/
+theorem either_loop_complete (next : Unit → K σ (Either φ α)) (body : α → K σ Unit) (s s' : σ) (f : φ)
+    (h : LoopRuns next body s f s') : ∃ n, ∀ fuel, n ≤ fuel → Either.loop fuel next body s = (.ok f, s') := by
+  induction h with
+  | stop hn =>
+    refine ⟨1, fun fuel hf => ?_⟩
+    obtain ⟨k, rfl⟩ : ∃ k, fuel = k + 1 := ⟨fuel - 1, by omega⟩
+    rw [Either.loop_succ, K.bind_run, hn]
+    rfl
+  | step hn hb _ ih =>
+    obtain ⟨n, hn'⟩ := ih
+    refine ⟨n + 1, fun fuel hf => ?_⟩
+    obtain ⟨k, rfl⟩ : ∃ k, fuel = k + 1 := ⟨fuel - 1, by omega⟩
+    rw [Either.loop_succ, K.bind_run, hn]
+    simp only [K.bind_run, hb]
+    exact hn' k (by omega)
+
+/-- the loop on a queue of results: the successes in front of the first failure go to `body` in order,
+that failure is returned, the rest of the queue is not touched -/
+theorem either_loop_queue (succs : List α) (f : φ) (rest : List (Either φ α)) (seen : List α) (fuel : Nat)
+    (hf : succs.length < fuel) :
+    Either.loop fuel queueNext queueBody
+      (succs.map .success ++ .failure f :: rest, seen) = (.ok f, (rest, seen ++ succs)) := by
+  induction succs generalizing seen fuel with
+  | nil =>
+    obtain ⟨k, rfl⟩ : ∃ k, fuel = k + 1 := ⟨fuel - 1, by simp at hf; omega⟩
+    rw [Either.loop_succ, K.bind_run]
+    simp [queueNext]
+  | cons a r ih =>
+    obtain ⟨k, rfl⟩ : ∃ k, fuel = k + 1 := ⟨fuel - 1, by simp at hf; omega⟩
+    rw [Either.loop_succ, K.bind_run]
+    simp only [List.map_cons, List.cons_append, K.bind_run, queueNext, queueBody]
+    have := ih (seen ++ [a]) k (by simp at hf; omega)
+    simpa using this
+
+/-- `try_call`: a normal return is the success … -/
+theorem either_tryCall_returns {ε : Type} (catches : ExcKind → Option ε) (f : Unit → K σ α) (toExc : ε → K σ φ)
+    (s s' : σ) (a : α) (h : f () s = (.ok a, s')) :
+    Either.tryCall catches f toExc s = (.ok (.success a), s') := Either.tryCall_ok catches f toExc s s' a h
+
+/-- … an exception of the requested type is converted (the converter runs once, after the effects of the function) … -/
+theorem either_tryCall_catches {ε : Type} (catches : ExcKind → Option ε) (f : Unit → K σ α) (toExc : ε → K σ φ)
+    (s s' : σ) (k : ExcKind) (e : ε) (h : f () s = (.error (.exception k), s')) (hc : catches k = some e) :
+    Either.tryCall catches f toExc s = (Either.failure <$> toExc e) s' :=
+  Either.tryCall_caught catches f toExc s s' k e h hc
+
+/-- … and any other exception propagates, the converter is not called -/
+theorem either_tryCall_propagates {ε : Type} (catches : ExcKind → Option ε) (f : Unit → K σ α) (toExc : ε → K σ φ)
+    (s s' : σ) (k : ExcKind) (h : f () s = (.error (.exception k), s')) (hc : catches k = none) :
+    Either.tryCall catches f toExc s = (.error (.exception k), s') :=
+  Either.tryCall_uncaught catches f toExc s s' k h hc
+
+/-! either: laws -/
+
+theorem either_map_id (e : Either φ α) : Either.map e (fun x => (pure x : K σ α)) = pure e := by
+  cases e <;> simp [Either.map_eq]
+
+theorem either_map_comp (e : Either φ α) (f : α → K σ β) (g : β → K σ γ) :
+    (Either.map e f >>= fun r => Either.map r g) = Either.map e (fun x => f x >>= g) := by
+  cases e <;> simp [Either.map_eq]
+
+theorem either_bind_pure_left (x : α) (f : α → K σ (Either φ β)) : Either.bind (.success x) f = f x := by
+  simp [Either.bind_eq]
+
+theorem either_bind_pure_right (e : Either φ α) :
+    Either.bind e (fun x => (pure (.success x) : K σ (Either φ α))) = pure e := by
+  cases e <;> simp [Either.bind_eq]
+
+theorem either_bind_assoc (e : Either φ α) (f : α → K σ (Either φ β)) (g : β → K σ (Either φ γ)) :
+    (Either.bind e f >>= fun r => Either.bind r g) = Either.bind e (fun x => f x >>= fun r => Either.bind r g) := by
+  cases e <;> simp [Either.bind_eq]
+
+theorem either_join_eq_bind_id (e : Either φ (Either φ α)) :
+    (Either.join e : K σ (Either φ α)) = Either.bind e (fun x => pure x) := rfl
+
+theorem either_bind_eq_map_join (e : Either φ α) (f : α → K σ (Either φ β)) :
+    Either.bind e f = (Either.map e f >>= fun r => Either.join r) := by
+  cases e <;> simp [Either.bind_eq, Either.map_eq, Either.join_eq]
+
+theorem monad_bind_either_eq (e : Either φ α) (f : α → K σ (Either φ β)) :
+    monadBindEither e f = Either.bind e f := rfl
+
+/-- `either` is Lean's `Except` monad: bind and apply with effect-free functions -/
+theorem either_bind_toExcept (e : Either φ α) (f : α → Either φ β) :
+    toExcept <$> Either.bind e (fun x => (pure (f x) : K σ (Either φ β)))
+      = pure (toExcept e >>= fun x => toExcept (f x)) := by
+  cases e <;> simp [Either.bind_eq, toExcept] <;> rfl
+
+theorem either_apply2_toExcept (f : α → β → δ) (e1 : Either φ α) (e2 : Either φ β) :
+    toExcept <$> Either.apply2 (fun a b => (pure (f a b) : K σ δ)) e1 e2
+      = pure (f <$> toExcept e1 <*> toExcept e2) := by
+  cases e1 <;> cases e2 <;> simp [Either.apply2_eq, toExcept] <;> rfl
+
+/-! ## 4. variant -/
+section variant
+variable {n : Nat} {τ : Fin n → Type}
+
+/-- `match` calls the function listed for the held type on the held value, once -/
+theorem variant_match_selects_branch (i : Fin n) (x : τ i) (fs : (i : Fin n) → τ i → K σ β) :
+    Var.match_ (⟨i, x⟩ : Var n τ) fs = fs i x := rfl
+
+theorem variant_apply_spec (i : Fin n) (x : τ i) (f : (i : Fin n) → τ i → K σ β) :
+    Var.apply f (⟨i, x⟩ : Var n τ) = f i x := rfl
+
+theorem variant_apply2_spec {m : Nat} {υ : Fin m → Type} (i : Fin n) (x : τ i) (j : Fin m) (y : υ j)
+    (f : (i : Fin n) → τ i → (j : Fin m) → υ j → K σ β) :
+    Var.apply2 f (⟨i, x⟩ : Var n τ) (⟨j, y⟩ : Var m υ) = f i x j y := rfl
+
+theorem variant_holdsType_iff (j : Fin n) (v : Var n τ) : Var.holdsType j v = true ↔ v.idx = j := by
+  simp [Var.holdsType]
+
+theorem variant_toOptional_spec (j : Fin n) (v : Var n τ) :
+    (Var.toOptional j v : K σ (Option (τ j))) = pure (if h : v.idx = j then some (h ▸ v.val) else none) :=
+  Var.toOptional_eq j v
+
+theorem variant_toOptional_held (i : Fin n) (x : τ i) :
+    (Var.toOptional i (⟨i, x⟩ : Var n τ) : K σ (Option (τ i))) = pure (some x) := by
+  simp [Var.toOptional_eq]
+
+/-- `compare` calls the comparison exactly when both hold the same type (once), else it is false without a call -/
+theorem variant_compare_spec (l r : Var n τ) (cmp : (i : Fin n) → τ i → τ i → K σ Bool) :
+    Var.compare l r cmp = if h : l.idx = r.idx then cmp r.idx (h ▸ l.val) r.val else pure false :=
+  Var.compare_eq l r cmp
+
+/-- `operator==` decides equality (lawful `==` on every alternative) -/
+theorem variant_eq_iff [∀ i, BEq (τ i)] [∀ i, LawfulBEq (τ i)] (l r : Var n τ) :
+    Var.eq (fun _ a b => a == b) l r = true ↔ l = r := by
+  obtain ⟨i, x⟩ := l
+  obtain ⟨j, y⟩ := r
+  by_cases h : i = j
+  · subst h
+    simp [Var.eq]
+  · simp [Var.eq, h]
+
+theorem variant_ne_spec (eqv : (i : Fin n) → τ i → τ i → Bool) (l r : Var n τ) :
+    Var.ne eqv l r = !Var.eq eqv l r := rfl
+
+/-- `operator<` is the lexicographic order on (index, value) -/
+theorem variant_lt_iff_lex (ltv : (i : Fin n) → τ i → τ i → Bool) (l r : Var n τ) :
+    Var.lt ltv l r = true ↔ l.idx < r.idx ∨ ∃ h : l.idx = r.idx, ltv r.idx (h ▸ l.val) r.val = true := by
+  obtain ⟨i, x⟩ := l
+  obtain ⟨j, y⟩ := r
+  simp only [Var.lt]
+  by_cases h1 : i < j
+  · simp [h1]
+  · by_cases h2 : j < i
+    · have : i ≠ j := by omega
+      simp [h1, h2, this]
+    · have : i = j := by omega
+      subst this
+      simp
+
+theorem variant_lt_irrefl (ltv : (i : Fin n) → τ i → τ i → Bool) (hi : ∀ i x, ltv i x x = false) (v : Var n τ) :
+    Var.lt ltv v v = false := by
+  obtain ⟨i, x⟩ := v
+  simp [Var.lt, hi]
+
+theorem variant_lt_trans (ltv : (i : Fin n) → τ i → τ i → Bool)
+    (ht : ∀ i x y z, ltv i x y = true → ltv i y z = true → ltv i x z = true)
+    (a b c : Var n τ) (h1 : Var.lt ltv a b = true) (h2 : Var.lt ltv b c = true) : Var.lt ltv a c = true := by
+  rw [variant_lt_iff_lex] at h1 h2 ⊢
+  obtain ⟨i, x⟩ := a
+  obtain ⟨j, y⟩ := b
+  obtain ⟨k, z⟩ := c
+  simp only at h1 h2 ⊢
+  rcases h1 with h1 | ⟨rfl, h1⟩
+  · rcases h2 with h2 | ⟨rfl, h2⟩
+    · exact .inl (by omega)
+    · exact .inl h1
+  · rcases h2 with h2 | ⟨rfl, h2⟩
+    · exact .inl h2
+    · exact .inr ⟨rfl, ht _ _ _ _ h1 h2⟩
+
+theorem variant_lt_trichotomy (ltv : (i : Fin n) → τ i → τ i → Bool)
+    (htri : ∀ i x y, ltv i x y = true ∨ x = y ∨ ltv i y x = true) (a b : Var n τ) :
+    Var.lt ltv a b = true ∨ a = b ∨ Var.lt ltv b a = true := by
+  rw [variant_lt_iff_lex, variant_lt_iff_lex]
+  obtain ⟨i, x⟩ := a
+  obtain ⟨j, y⟩ := b
+  simp only
+  by_cases h1 : i < j
+  · exact .inl (.inl h1)
+  · by_cases h2 : j < i
+    · exact .inr (.inr (.inl h2))
+    · have : i = j := by omega
+      subst this
+      rcases htri i x y with h | rfl | h
+      · exact .inl (.inr ⟨rfl, h⟩)
+      · exact .inr (.inl rfl)
+      · exact .inr (.inr (.inr ⟨rfl, h⟩))
+
+end variant
+
+/-! ## 5. exactly once / never on an absent value, read off a call log -/
+
+/-- `maybe` with logging continuations: the log grows by exactly one entry, that of the selected branch -/
+theorem maybe_called_exactly_once {ε : Type} (o : Option α) (eD : ε) (eT : α → ε) (dv : β) (t : α → β) (l : List ε) :
+    Opt.maybe o (fun _ => logged eD dv) (fun x => logged (eT x) (t x)) l
+      = match o with
+        | some x => (.ok (t x), l ++ [eT x])
+        | none => (.ok dv, l ++ [eD]) := by
+  rw [Opt.maybe_eq]
+  cases o <;> rfl
+
+theorem either_match_called_exactly_once {ε : Type} (e : Either φ α) (eF : φ → ε) (eS : α → ε) (ff : φ → β) (sf : α → β)
+    (l : List ε) :
+    Either.match_ e (fun x => logged (eF x) (ff x)) (fun x => logged (eS x) (sf x)) l
+      = match e with
+        | .success s => (.ok (sf s), l ++ [eS s])
+        | .failure f => (.ok (ff f), l ++ [eF f]) := by
+  rw [Either.match_eq]
+  cases e <;> rfl
+
+theorem variant_match_called_exactly_once {ε : Type} {n : Nat} {τ : Fin n → Type} (v : Var n τ)
+    (en : (i : Fin n) → τ i → ε) (fs : (i : Fin n) → τ i → β) (l : List ε) :
+    Var.match_ v (fun i x => logged (en i x) (fs i x)) l = (.ok (fs v.idx v.val), l ++ [en v.idx v.val]) := rfl
+
+/-- `map` / `bind` / `filter` / `from`: one call for a set optional, none (log untouched) for nothing -/
+theorem opt_map_call_log {ε : Type} (o : Option α) (en : α → ε) (f : α → β) (l : List ε) :
+    Opt.map o (fun x => logged (en x) (f x)) l
+      = match o with
+        | some x => (.ok (some (f x)), l ++ [en x])
+        | none => (.ok none, l) := by
+  rw [Opt.map_eq]
+  cases o <;> rfl
+
+/-- a continuation is never invoked for an absent value: with nothing / a failure / another type in the
+argument the result does not depend on the continuation and the state is untouched -/
+theorem never_called_on_absent (f : α → K σ (Option β)) (g : α → K σ β) (p : α → K σ Bool) (u : α → K σ Unit)
+    (h : α → β → K σ δ) (o2 : Option β) (x : φ) (ef : α → K σ (Either φ β)) :
+    Opt.bind none f = pure none ∧ Opt.map none g = pure none ∧ Opt.filter none p = pure none ∧
+    Opt.maybeVoid none u = pure () ∧ Opt.apply1 g none = pure none ∧
+    Opt.apply2 h none o2 = pure none ∧ Opt.apply2 (fun b a => h a b) o2 none = pure none ∧
+    Either.map (.failure x) g = pure (.failure x) ∧ Either.bind (.failure x) ef = pure (.failure x) ∧
+    Either.apply1 g (.failure x) = pure (.failure x) ∧
+    Either.mapFailure (.success x : Either α φ) g = pure (.success x) := by
+  refine ⟨?_, ?_, ?_, ?_, ?_, ?_, ?_, ?_, ?_, ?_, ?_⟩
+  · simp [Opt.bind_eq]
+  · simp [Opt.map_eq]
+  · simp [Opt.filter_eq]
+  · simp [Opt.maybeVoid_eq]
+  · simp [Opt.apply1_eq]
+  · simp [Opt.apply2_eq]
+  · cases o2 <;> simp [Opt.apply2_eq]
+  · simp [Either.map_eq]
+  · simp [Either.bind_eq]
+  · simp [Either.apply1_eq]
+  · simp [Either.mapFailure_eq]
+
+/-! ## 6. no `get_unsafe` on the wrong alternative: the only faults are the continuations' own -/
+
+theorem opt_noFault_of_continuations (o o' : Option α) (o2 : Option β) (o3 : Option γ)
+    (f : α → K σ (Option β)) (g : α → K σ β) (p : α → K σ Bool) (a : Unit → K σ (Option α))
+    (c : α → α → K σ α) (d : Unit → K σ β) (da : Unit → K σ α) (u : α → K σ Unit)
+    (h2 : α → β → K σ δ) (h3 : α → β → γ → K σ δ) (dd : Unit → K σ δ) (hl : List α → K σ δ) (os : List (Option α))
+    (hf : ∀ x, NoFault (f x)) (hg : ∀ x, NoFault (g x)) (hp : ∀ x, NoFault (p x)) (ha : NoFault (a ()))
+    (hc : ∀ x y, NoFault (c x y)) (hd : NoFault (d ())) (hda : NoFault (da ())) (hu : ∀ x, NoFault (u x))
+    (hh2 : ∀ x y, NoFault (h2 x y)) (hh3 : ∀ x y z, NoFault (h3 x y z)) (hdd : NoFault (dd ()))
+    (hhl : ∀ xs, NoFault (hl xs)) :
+    NoFault (Opt.bind o f) ∧ NoFault (Opt.map o g) ∧ NoFault (Opt.filter o p) ∧ NoFault (Opt.alternative o a) ∧
+    NoFault (Opt.combine o o' c) ∧ NoFault (Opt.maybe o d g) ∧ NoFault (Opt.from o da) ∧ NoFault (Opt.maybeVoid o u) ∧
+    NoFault (Opt.apply1 g o) ∧ NoFault (Opt.apply2 h2 o o2) ∧ NoFault (Opt.apply3 h3 o o2 o3) ∧
+    NoFault (Opt.applyN hl os) ∧
+    NoFault (Opt.maybeMulti1 d g o) ∧ NoFault (Opt.maybeMulti2 dd h2 o o2) ∧ NoFault (Opt.maybeMulti3 dd h3 o o2 o3) ∧
+    NoFault (Opt.maybeMultiN dd hl os) := by
+  refine ⟨?_, ?_, ?_, ?_, ?_, ?_, ?_, ?_, ?_, ?_, ?_, ?_, ?_, ?_, ?_, ?_⟩
+  · rw [Opt.bind_eq]; cases o <;> simp [NoFault.pure, hf]
+  · rw [Opt.map_eq]; cases o <;> simp [NoFault.pure, NoFault.map, hg]
+  · rw [Opt.filter_eq]; cases o <;> simp [NoFault.pure, NoFault.map, hp]
+  · rw [Opt.alternative_eq]; cases o <;> simp [NoFault.pure, ha]
+  · rw [Opt.combine_eq]; cases o <;> cases o' <;> simp [NoFault.pure, NoFault.map, hc]
+  · rw [Opt.maybe_eq]; cases o <;> simp [hd, hg]
+  · rw [Opt.from_eq]; cases o <;> simp [NoFault.pure, hda]
+  · rw [Opt.maybeVoid_eq]; cases o <;> simp [NoFault.pure, hu]
+  · rw [Opt.apply1_eq]; cases o <;> simp [NoFault.pure, NoFault.map, hg]
+  · rw [Opt.apply2_eq]; cases o <;> cases o2 <;> simp [NoFault.pure, NoFault.map, hh2]
+  · rw [Opt.apply3_eq]; cases o <;> cases o2 <;> cases o3 <;> simp [NoFault.pure, NoFault.map, hh3]
+  · rw [Opt.applyN_eq]; cases allSome os <;> simp [NoFault.pure, NoFault.map, hhl]
+  · rw [Opt.maybeMulti1_eq]; cases o <;> simp [hd, hg]
+  · rw [Opt.maybeMulti2_eq]; cases o <;> cases o2 <;> simp [hdd, hh2]
+  · rw [Opt.maybeMulti3_eq]; cases o <;> cases o2 <;> cases o3 <;> simp [hdd, hh3]
+  · rw [Opt.maybeMultiN_eq]; cases allSome os <;> simp [hdd, hhl]
+
+/-- the combinators without continuation never fault -/
+theorem opt_noFault_pure (oo : Option (Option α)) (l : List (Option α)) (a b : Option α)
+    (eqv ltv : α → α → Bool) :
+    NoFault (Opt.join oo : K σ _) ∧ NoFault (Opt.cat l : K σ _) ∧ NoFault (Opt.sequence l : K σ _) ∧
+    NoFault (Opt.eq eqv a b : K σ _) ∧ NoFault (Opt.ne eqv a b : K σ _) ∧ NoFault (Opt.lt ltv a b : K σ _) := by
+  refine ⟨?_, ?_, ?_, ?_, ?_, ?_⟩
+  · rw [Opt.join_eq]; exact NoFault.pure _
+  · rw [Opt.cat_eq]; exact NoFault.pure _
+  · rw [Opt.sequence_eq]; exact NoFault.pure _
+  · rw [Opt.eq_eq]; exact NoFault.pure _
+  · rw [Opt.ne_eq, Opt.eq_eq]; exact NoFault.map _ (NoFault.pure _)
+  · rw [Opt.lt_eq]; exact NoFault.pure _
+
+theorem either_noFault_of_continuations (e : Either φ α) (e2 : Either φ β) (e3 : Either φ γ) (o : Option α)
+    (ff : φ → K σ β) (g : α → K σ β) (f : α → K σ (Either φ β)) (mf : φ → K σ ψ) (th : Unit → K σ φ)
+    (h2 : α → β → K σ δ) (h3 : α → β → γ → K σ δ) (hl : List α → K σ δ) (es : List (Either φ α))
+    (hff : ∀ x, NoFault (ff x)) (hg : ∀ x, NoFault (g x)) (hf : ∀ x, NoFault (f x)) (hmf : ∀ x, NoFault (mf x))
+    (hth : NoFault (th ())) (hh2 : ∀ x y, NoFault (h2 x y)) (hh3 : ∀ x y z, NoFault (h3 x y z))
+    (hhl : ∀ xs, NoFault (hl xs)) :
+    NoFault (Either.match_ e ff g) ∧ NoFault (Either.map e g) ∧ NoFault (Either.bind e f) ∧
+    NoFault (Either.mapFailure e mf) ∧ NoFault (Either.fromOptional o th) ∧
+    NoFault (Either.apply1 g e) ∧ NoFault (Either.apply2 h2 e e2) ∧ NoFault (Either.apply3 h3 e e2 e3) ∧
+    NoFault (Either.applyN hl es) := by
+  refine ⟨?_, ?_, ?_, ?_, ?_, ?_, ?_, ?_, ?_⟩
+  · rw [Either.match_eq]; cases e <;> simp [hff, hg]
+  · rw [Either.map_eq]; cases e <;> simp [NoFault.pure, NoFault.map, hg]
+  · rw [Either.bind_eq]; cases e <;> simp [NoFault.pure, hf]
+  · rw [Either.mapFailure_eq]; cases e <;> simp [NoFault.pure, NoFault.map, hmf]
+  · rw [Either.fromOptional_eq]; cases o <;> simp [NoFault.pure, NoFault.map, hth]
+  · rw [Either.apply1_eq]; cases e <;> simp [NoFault.pure, NoFault.map, hg]
+  · rw [Either.apply2_eq]; cases e <;> cases e2 <;> simp [NoFault.pure, NoFault.map, hh2]
+  · rw [Either.apply3_eq]; cases e <;> cases e2 <;> cases e3 <;> simp [NoFault.pure, NoFault.map, hh3]
+  · rw [Either.applyN_eq]; cases allSuccess es <;> simp [NoFault.pure, NoFault.map, hhl]
+
+theorem either_noFault_pure (ee : Either φ (Either φ α)) (e : Either φ α) (l : List (Either φ α)) :
+    NoFault (Either.join ee : K σ _) ∧ NoFault (Either.successOpt e : K σ _) ∧ NoFault (Either.failureOpt e : K σ _) ∧
+    NoFault (Either.sequence l : K σ _) := by
+  refine ⟨?_, ?_, ?_, ?_⟩
+  · rw [Either.join_eq]; exact NoFault.pure _
+  · rw [Either.successOpt_eq]; exact NoFault.pure _
+  · rw [Either.failureOpt_eq]; exact NoFault.pure _
+  · rw [Either.sequence_eq]; exact NoFault.pure _
+
+/-- `first_success` faults only if one of the functions does -/
+theorem either_firstSuccess_noFault (fns : List (Unit → K σ (Either φ α))) (h : ∀ fn ∈ fns, NoFault (fn ())) :
+    NoFault (Either.firstSuccess fns) := by
+  induction fns with
+  | nil => exact NoFault.pure _
+  | cons fn rest ih =>
+    rw [Either.firstSuccess_cons]
+    refine NoFault.bind (h fn (by simp)) fun r => ?_
+    cases r with
+    | success s => exact NoFault.pure _
+    | failure x => exact NoFault.map _ (ih fun g hg => h g (by simp [hg]))
+
+theorem variant_noFault {n : Nat} {τ : Fin n → Type} (j : Fin n) (l r : Var n τ)
+    (cmp : (i : Fin n) → τ i → τ i → K σ Bool) (hc : ∀ i x y, NoFault (cmp i x y)) :
+    NoFault (Var.toOptional j l : K σ _) ∧ NoFault (Var.compare l r cmp) := by
+  refine ⟨?_, ?_⟩
+  · rw [Var.toOptional_eq]; exact NoFault.pure _
+  · rw [Var.compare_eq]
+    split
+    · exact hc _ _ _
+    · exact NoFault.pure _
+
+/-- `get_unsafe` itself: defined on the held alternative (the guard every combinator establishes) and a
+fault otherwise; exactly one of `has_success` / `has_failure` holds -/
+theorem getUnsafe_guard (o : Option α) (e : Either φ α) :
+    (Opt.hasValue o = true → NoFault (Opt.getUnsafe o : K σ α)) ∧
+    (Opt.hasValue o = false → ∀ s : σ, (Opt.getUnsafe o : K σ α) s = (.error .emptyDeref, s)) ∧
+    (Either.hasSuccess e = true → NoFault (Either.getSuccessUnsafe e : K σ α)) ∧
+    (Either.hasFailure e = true → NoFault (Either.getFailureUnsafe e : K σ φ)) ∧
+    (Either.hasFailure e = !Either.hasSuccess e) := by
+  refine ⟨?_, ?_, ?_, ?_, Either.hasFailure_eq_not_hasSuccess e⟩
+  · cases o <;> simp [NoFault.pure]
+  · cases o <;> simp
+  · cases e <;> simp [NoFault.pure]
+  · cases e <;> simp [NoFault.pure]
+
+/-! ## Non-vacuity -/
+
+-- a bind that calls its continuation, and one that does not
+example : Opt.bind (some 1) (fun x => logged x (some (x + 1))) [] = (.ok (some 2), [1]) := rfl
+example : Opt.bind (none : Option Nat) (fun x => logged x (some (x + 1))) [] = (.ok none, []) := rfl
+-- sequence short-circuit order: the first failure wins
+example : allSuccess [.success 1, .failure "a", .success 2, .failure "b"] = (.failure "a" : Either String (List Nat)) := rfl
+example : Spec.firstSuccess [.failure 1, .failure 2, .success "s", .failure 3] = (.success "s" : Either (List Nat) String) := rfl
+-- apply: first failure, left to right
+example : Either.apply2 (fun (a b : Nat) => (pure (a + b) : K Unit Nat)) (.failure "l") (.failure "r") ()
+    = (.ok (.failure "l"), ()) := rfl
+-- get_unsafe on the wrong alternative is a fault of the model (so `*_noFault` are not vacuous)
+example : (Opt.getUnsafe (none : Option Nat) : K Unit Nat) () = (.error .emptyDeref, ()) := rfl
+-- the loop on a queue
+example : Either.loop 10 queueNext queueBody
+      ([.success 1, .success 2, .failure "stop", .success 3], []) = (.ok "stop", ([.success 3], [1, 2])) := rfl
+-- variant `<`: index first, then value
+example : Var.lt (n := 2) (τ := fun _ => Nat) (fun _ a b => decide (a < b)) ⟨0, 5⟩ ⟨1, 0⟩ = true := by decide
+example : Var.lt (n := 2) (τ := fun _ => Nat) (fun _ a b => decide (a < b)) ⟨1, 0⟩ ⟨1, 0⟩ = false := by decide
+
+end Fcppt.C04
